@@ -6,29 +6,30 @@
 From V Require Import Base.PyInt Gen.Helpers.
 
 (* ------------------------------------------------------------------ FixedPoint (helper.py:461-560) *)
-(* a FixedPoint object is (sw, iw, fw, v); every operation builds its result with FixedPoint(sw,iw,fw,0), whose
-   intToFixedPoint computes 1 << (iw-1): Python raises ValueError for iw = 0 (finding #23), hence option. *)
+(* a FixedPoint object is (sw, iw, fw, v); every operation builds its result with FixedPoint(sw,iw,fw,0).
+   An exception of the code (documented range errors, a negative shift count) is None. *)
 Definition fx_width (sw iw fw : Z) : Z := sw + iw + fw.
 
+(* intToFixedPoint as in /repo since 6fe767a: maxv = (1 << iw) >> 1 *)
 Definition FixedPoint_intToFixedPoint (sw iw fw v : Z) : option Z :=
   if (v <? 0) && (sw =? 0) then None                       (* 'negative values not supported' *)
-  else
-    let w := sw + iw + fw in
-    if iw - 1 <? 0 then None                                 (* 1 << (iw-1): ValueError negative shift count *)
-    else
-      let maxv := py_shl 1 (iw - 1) in
-      if v >? maxv then None                                 (* 'Value greater than max value' *)
-      else Some (Z.land (py_shl v fw) (py_shl 1 w - 1)).
-
-(* the same constructor after the repair of finding #23 (fixes/C12-23.diff): maxv = (1 << iw) >> 1, defined for iw = 0.
-   Which of the two the implementation runs is read off by a probe (FixedPoint(1,0,1,0) raises or not). *)
-Definition FixedPoint_intToFixedPoint_r (sw iw fw v : Z) : option Z :=
-  if (v <? 0) && (sw =? 0) then None
   else
     let w := sw + iw + fw in
     if iw <? 0 then None                                     (* 1 << iw: ValueError negative shift count *)
     else
       let maxv := py_shr (py_shl 1 iw) 1 in
+      if v >? maxv then None                                 (* 'Value greater than max value' *)
+      else Some (Z.land (py_shl v fw) (py_shl 1 w - 1)).
+
+(* HISTORY: the constructor before 6fe767a (maxv = 1 << (iw-1): ValueError for iw = 0, finding #23).  Only used by the
+   `_before_repair_` examples and by the correspondence cases when the probe sees the old behaviour again (a regression). *)
+Definition FixedPoint_intToFixedPoint_before_6fe767a (sw iw fw v : Z) : option Z :=
+  if (v <? 0) && (sw =? 0) then None
+  else
+    let w := sw + iw + fw in
+    if iw - 1 <? 0 then None
+    else
+      let maxv := py_shl 1 (iw - 1) in
       if v >? maxv then None
       else Some (Z.land (py_shl v fw) (py_shl 1 w - 1)).
 
@@ -58,9 +59,6 @@ Definition FixedPoint_mult_gen (ctor : Z -> Z -> Z -> Z -> option Z) (sw iw fw a
 Definition FixedPoint_add := FixedPoint_add_gen FixedPoint_intToFixedPoint.
 Definition FixedPoint_sub := FixedPoint_sub_gen FixedPoint_intToFixedPoint.
 Definition FixedPoint_mult := FixedPoint_mult_gen FixedPoint_intToFixedPoint.
-Definition FixedPoint_add_r := FixedPoint_add_gen FixedPoint_intToFixedPoint_r.
-Definition FixedPoint_sub_r := FixedPoint_sub_gen FixedPoint_intToFixedPoint_r.
-Definition FixedPoint_mult_r := FixedPoint_mult_gen FixedPoint_intToFixedPoint_r.
 
 (* toFloatingPoint: the exact rational it denotes is num / 2^fw; returned as the signed numerator *)
 Definition FixedPoint_toFloat_num (sw iw fw v : Z) : Z :=
